@@ -1429,8 +1429,12 @@ class Engine:
                         match = True
                     else:
                         tv = self.eval(h.type, frame)
-                        classes = [c.cls for c in (tv.items if isinstance(tv, TupleVal) else [tv])]
-                        match = any(pr.cls.is_subclass_of(c) for c in classes)
+                        hs = list(tv.items if isinstance(tv, TupleVal) else [tv])
+                        if any(isinstance(c, BuiltinRef) and c.name in ("Exception", "BaseException") for c in hs):
+                            match = True       # every exception the engine models derives from Exception
+                        else:
+                            classes = [c.cls for c in hs]
+                            match = any(pr.cls.is_subclass_of(c) for c in classes)
                     if match:
                         if h.name:
                             frame.vars[h.name] = pr.exc
